@@ -46,12 +46,12 @@ Qed.
 
 Lemma C20_serial_bus_ok p p' :
   serial_bus_try_new p = Ok p' ->
-  sp_settings p' = wanted /\ sp_timeout p' = Some 5000 /\ sp_fail p = FailNone.
+  sp_settings p' = wanted /\ sp_timeout p' = Some 5000000000 /\ sp_fail p = FailNone.
 Proof. apply C20_ok_means_configured. Qed.
 
 Lemma C20_odk_ok p p' :
   odk_try_new p = Ok p' ->
-  sp_settings p' = wanted /\ sp_timeout p' = Some 10000 /\ sp_fail p = FailNone.
+  sp_settings p' = wanted /\ sp_timeout p' = Some 10000000000 /\ sp_fail p = FailNone.
 Proof. apply C20_ok_means_configured. Qed.
 
 Lemma C20_constructors_fail p :
@@ -61,6 +61,6 @@ Proof. intros H. split; apply C20_failure_is_error; exact H. Qed.
 
 Lemma C20_constructors_succeed p :
   sp_fail p = FailNone ->
-  serial_bus_try_new p = Ok {| sp_settings := wanted; sp_timeout := Some 5000; sp_fail := FailNone |}
-  /\ odk_try_new p = Ok {| sp_settings := wanted; sp_timeout := Some 10000; sp_fail := FailNone |}.
+  serial_bus_try_new p = Ok {| sp_settings := wanted; sp_timeout := Some 5000000000; sp_fail := FailNone |}
+  /\ odk_try_new p = Ok {| sp_settings := wanted; sp_timeout := Some 10000000000; sp_fail := FailNone |}.
 Proof. intros H. split; apply C20_no_failure_is_ok; exact H. Qed.
